@@ -64,6 +64,7 @@ func main() {
 	for _, p := range pkgs {
 		templateTie(r, p)
 	}
+	callSeqTie(r, scratch)
 
 	// ---- 2. probe histories
 	if probe != nil {
@@ -139,6 +140,42 @@ func loadStd(r *hlib.Run, scratch string) []*pkgData {
 		out = append(out, &pkgData{name: n, methods: ms, csrc: string(c)})
 	}
 	return out
+}
+
+// callSeqTie: the call_sequence statements of every image decoder's source vs the text the
+// automaton of Model/CallSeq.lean was written from (see cssrc.go).
+func callSeqTie(r *hlib.Run, scratch string) {
+	es, _ := os.ReadDir(filepath.Join(scratch, "std"))
+	var names []string
+	for _, e := range es {
+		if e.IsDir() {
+			names = append(names, e.Name())
+		}
+	}
+	sort.Strings(names)
+	for _, n := range names {
+		var all []csFunc
+		for _, f := range wuffsFilesIn(filepath.Join(scratch, "std", n)) {
+			b, err := os.ReadFile(f)
+			if err != nil {
+				continue
+			}
+			all = append(all, callSeqShapes(string(b))...)
+		}
+		if len(all) == 0 {
+			continue
+		}
+		var fns []string
+		for _, x := range all {
+			fns = append(fns, x.Name)
+			r.Op(fmt.Sprintf("cssrc %s %s %s", csClass(n, x.Name), n, x.Name), x.Shape)
+			r.Count("cssrc:functions")
+			r.Nontrivial("cssrc|" + x.Shape)
+		}
+		sort.Strings(fns)
+		r.Op(fmt.Sprintf("cssrc %s %s *", csClass(n, ""), n), strings.Join(fns, ","))
+		r.Count("cssrc:decoders")
+	}
 }
 
 func templateTie(r *hlib.Run, p *pkgData) {
